@@ -700,6 +700,19 @@ static StepResult do_op(V *roots, const std::vector<std::string> &t, std::string
         vivify(roots, l)->Reset();
     } else if (op == "cmp" && t.size() == 2 && parse_loc(t[1], l)) {
         vivify(roots, l)->Compress();
+    } else if (op == "rsv" && t.size() == 4 && parse_loc(t[1], l)) {
+        // an empty container that owns storage: Value{ValueType::Object|Array, n} (Size() == 0, Capacity() != 0)
+        V             *tv = vivify(roots, l);
+        const unsigned k  = (unsigned)strtoul(t[2].c_str(), nullptr, 10);
+        const SizeT    n  = SizeT(strtoul(t[3].c_str(), nullptr, 10));
+        if (k == 2 || k == 3) *tv = V{ValueType(k), n};
+    } else if (op == "clr" && t.size() == 2 && parse_loc(t[1], l)) {
+        // items gone, capacity kept: GetObject()->Clear() / GetArray()->Clear()
+        V *tv = vivify(roots, l);
+        if (tv->Type() == ValueType::Object)
+            tv->GetObject()->Clear();
+        else if (tv->Type() == ValueType::Array)
+            tv->GetArray()->Clear();
     } else if ((op == "grp") && t.size() == 4 && parse_loc(t[2], s)) {
         const unsigned        d = (unsigned)strtoul(t[1].c_str(), nullptr, 10) & 3;
         std::vector<uint64_t> k;
